@@ -108,11 +108,13 @@ def part(fn, ty, calls, tier, tag):
     for n, k, sort, rev in calls:
         assert 0 <= k <= n + 1
         b.append(f"fl.merge({case}::<{T}, {n}, {n + 3}>(&keys{n}, {k}, {str(sort).lower()}, {str(rev).lower()}));")
+    what = "partition" if fn == "partition" else "arg-partition"
+    b.append(f'assert!(!fl.count_bad, "{what} yields exactly k+1 entries");')
     if any(n >= 1 for n, k, _, _ in calls):
         b.append('kani::cover!(fl.padded, "fewer than k+1 valid elements (pads required)");')
     if any(k + 1 < n for n, k, _, _ in calls):
         b.append('kani::cover!(fl.selected, "more than k+1 valid elements (genuine selection)");')
-    if any(k + 1 < n and n >= 2 for n, k, _, _ in calls):
+    if any(k + 3 <= n for n, k, _, _ in calls):     # k+1 < valid count < N
         b.append('kani::cover!(fl.null_in_input && fl.selected, "nulls in the input and a genuine selection");')
     # tight bound: library loops over the N elements (N+1 evaluations of the condition, one spare) and the
     # k+2 reads of the harness; a generous bound is expensive here because the merged iterator states keep
@@ -187,7 +189,9 @@ for fn in ("partition", "argpartition"):
         part(fn, ty, [(3, 2, S, A), (3, 3, U, D)], "t", "pad_n3")       # quick has the same paths at N = 1 (small_n0n1)
         part(fn, ty, [(0, 0, U, A), (1, 0, S, A), (1, 1, U, D)], t, "small_n0n1")
         # k+1 > len with the sorted flag: the pinned vpartition returns len entries here
-        part(fn, ty, [(0, 0, S, A), (1, 1, S, D), (2, 2, S, A), (2, 3, S, D)], t if fn == "partition" else "t", "sorted_beyond_n0n1n2")
+        # (kept small: the native replay of a failing harness needs a full CBMC trace, about 5x its cost)
+        part(fn, ty, [(1, 1, S, D), (2, 2, S, A)], t if fn == "partition" else "t", "sorted_beyond_n1n2")
+        part(fn, ty, [(0, 0, S, A), (2, 3, S, D)], "t", "sorted_beyond_rest_n0n2")
         part(fn, ty, [(3, 3, S, A), (3, 4, S, D)], "t", "sorted_beyond_n3")
         # the mirrored flags and the remaining k at N <= 3, and N = 4: thorough
         part(fn, ty, [(0, 1, U, D), (1, 0, S, D), (1, 0, U, A), (1, 0, U, D), (1, 1, U, A), (1, 2, U, A), (1, 2, U, D)], "t", "small_rest_n0n1")
